@@ -250,24 +250,15 @@ pub fn min_k<C: FsCase>(case: &C, max_k: u32) -> Result<u32, Outcome> {
     Err(last)
 }
 
-pub struct HonestReport {
-    pub outcome: Outcome,
-    pub n_assign: u64,
-    pub untamperable: u64,
-    pub exposed: usize,
-    pub ins: Vec<Vec<F>>,
-}
-
 fn viol_key(case: &impl FsCase, what: &str) -> String {
     format!("{}:{what}", case.op())
 }
 
-/// Honest run only (one MockProver run): must be satisfied with the reference result.
-pub fn honest_only<C: FsCase>(case: &C, k: u32, out: &mut CaseOut) -> (FsRun, bool) {
-    let run = run_once(case, k, vec![], true);
+/// Verdict on an honest run: must be satisfied with the reference result.
+pub fn honest_verdict<C: FsCase>(case: &C, k: u32, run: &FsRun, out: &mut CaseOut) -> bool {
     let detail = json!({"case": case.key(), "k": k});
     out.eval(&format!("honest:{}", run.outcome.name()), true);
-    let ok = match &run.outcome {
+    match &run.outcome {
         Outcome::Sat => match run.judge(case) {
             Judgement::Holds => true,
             Judgement::Wrong(w) => {
@@ -285,29 +276,25 @@ pub fn honest_only<C: FsCase>(case: &C, k: u32, out: &mut CaseOut) -> (FsRun, bo
             out.viol(Viol::new(viol_key(case, &format!("completeness:{}", o.name())), format!("honest witness for an admissible input is not accepted — {what}"), detail));
             false
         }
-    };
-    (run, ok)
+    }
 }
 
-/// 0 deviations + instance binding + exposed-value lies.
-pub fn explore_honest<C: FsCase>(case: &C, k: u32, out: &mut CaseOut) -> HonestReport {
-    let (mut run, ok) = honest_only(case, k, out);
-    let rep = HonestReport {
-        outcome: run.outcome.clone(),
-        n_assign: run.n_assign,
-        untamperable: run.untamperable,
-        exposed: run.flat.len(),
-        ins: run.ins.clone(),
-    };
-    if !ok {
-        return rep;
-    }
-    let detail = || json!({"case": case.key(), "k": k});
-    let mut prover = run.prover.take().unwrap();
+/// Instance binding (every single-position edit of the exposed vector must be rejected) and
+/// exposed-value lies (an exposed value and every cell copy-constrained to it are changed
+/// together: rejected, or the relation still holds) at the exposed positions `positions`.
+pub fn binding_checks(
+    prover: &mut MockProver<F>,
+    flat: &[F],
+    positions: &[usize],
+    judge_flat: &dyn Fn(&[F]) -> Judgement,
+    op: &str,
+    detail: &dyn Fn() -> serde_json::Value,
+    out: &mut CaseOut,
+) {
     let empty = std::iter::empty::<usize>();
-    for pos in 0..run.flat.len() {
-        for (name, newv) in [("+1", InstanceValue::Assigned(run.flat[pos] + F::from(1))), ("padding", InstanceValue::Padding)] {
-            if name == "padding" && run.flat[pos] == F::from(0) {
+    for &pos in positions {
+        for (name, newv) in [("+1", InstanceValue::Assigned(flat[pos] + F::from(1))), ("padding", InstanceValue::Padding)] {
+            if name == "padding" && flat[pos] == F::from(0) {
                 continue;
             }
             let old = prover.instance()[1][pos].clone();
@@ -316,75 +303,106 @@ pub fn explore_honest<C: FsCase>(case: &C, k: u32, out: &mut CaseOut) -> HonestR
             prover.instance_mut()[1][pos] = old;
             out.eval(if ok { "instance-edit:accepted" } else { "instance-edit:rejected" }, true);
             if ok {
-                out.viol(Viol::new(viol_key(case, "instance-not-bound"), format!("editing exposed position {pos} ({name}) is not rejected"), detail()));
+                out.viol(Viol::new(format!("{op}:instance-not-bound"), format!("editing exposed position {pos} ({name}) is not rejected"), detail()));
             }
         }
     }
     let perm = prover.permutation();
     let cols = perm.columns().to_vec();
     let mapping: Vec<Vec<(usize, usize)>> = perm.mapping().map(|c| c.collect()).collect();
-    let inst_col_idx = cols.iter().position(|c| matches!(c.column_type(), Any::Instance) && c.index() == 1);
-    if let Some(ici) = inst_col_idx {
-        for pos in 0..run.flat.len() {
-            let mut cycle = vec![];
-            let mut cur = (ici, pos);
-            loop {
-                cycle.push(cur);
-                cur = mapping[cur.0][cur.1];
-                if cur == (ici, pos) || cycle.len() > 10_000 {
-                    break;
+    let Some(ici) = cols.iter().position(|c| matches!(c.column_type(), Any::Instance) && c.index() == 1) else {
+        return;
+    };
+    for &pos in positions {
+        let mut cycle = vec![];
+        let mut cur = (ici, pos);
+        loop {
+            cycle.push(cur);
+            cur = mapping[cur.0][cur.1];
+            if cur == (ici, pos) || cycle.len() > 10_000 {
+                break;
+            }
+        }
+        for (fname, fault) in [("+1", Fault::Add(1)), ("zero", Fault::Set([0; 4])), ("1-v", Fault::OneMinus)] {
+            let newv = verif::apply_fault(&fault, flat[pos]);
+            if newv == flat[pos] {
+                continue;
+            }
+            let mut saved = vec![];
+            for (ci, row) in &cycle {
+                let col = cols[*ci];
+                match col.column_type() {
+                    Any::Advice(_) => {
+                        saved.push((*ci, *row, prover.advice()[col.index()][*row]));
+                        prover.advice_mut()[col.index()][*row] = CellValue::Assigned(newv);
+                    }
+                    Any::Instance => {
+                        prover.instance_mut()[col.index()][*row] = InstanceValue::Assigned(newv);
+                    }
+                    Any::Fixed => {}
                 }
             }
-            for (fname, fault) in [("+1", Fault::Add(1)), ("zero", Fault::Set([0; 4])), ("1-v", Fault::OneMinus)] {
-                let newv = verif::apply_fault(&fault, run.flat[pos]);
-                if newv == run.flat[pos] {
-                    continue;
+            // (a panic of MockProver while *reporting* a failure still means it found one)
+            let ok = catch(|| prover.verify().is_ok()).unwrap_or(false);
+            for (ci, row, v) in saved {
+                prover.advice_mut()[cols[ci].index()][row] = v;
+            }
+            for (ci, row) in &cycle {
+                if *ci == ici {
+                    prover.instance_mut()[1][*row] = InstanceValue::Assigned(flat[*row]);
                 }
-                let mut saved = vec![];
+            }
+            out.eval(if ok { "cycle-lie:accepted" } else { "cycle-lie:rejected" }, true);
+            if ok {
+                let mut f2 = flat.to_vec();
                 for (ci, row) in &cycle {
-                    let col = cols[*ci];
-                    match col.column_type() {
-                        Any::Advice(_) => {
-                            saved.push((*ci, *row, prover.advice()[col.index()][*row]));
-                            prover.advice_mut()[col.index()][*row] = CellValue::Assigned(newv);
-                        }
-                        Any::Instance => {
-                            prover.instance_mut()[col.index()][*row] = InstanceValue::Assigned(newv);
-                        }
-                        Any::Fixed => {}
+                    if *ci == ici {
+                        f2[*row] = newv;
                     }
                 }
-                let ok = catch(|| prover.verify().is_ok()).unwrap_or(false);
-                for (ci, row, v) in saved {
-                    prover.advice_mut()[cols[ci].index()][row] = v;
-                }
-                for (ci, row) in &cycle {
-                    if matches!(cols[*ci].column_type(), Any::Instance) && cols[*ci].index() == 1 {
-                        prover.instance_mut()[cols[*ci].index()][*row] = InstanceValue::Assigned(run.flat[*row]);
-                    }
-                }
-                out.eval(if ok { "cycle-lie:accepted" } else { "cycle-lie:rejected" }, true);
-                if ok {
-                    let mut flat = run.flat.clone();
-                    for (ci, row) in &cycle {
-                        if *ci == ici {
-                            flat[*row] = newv;
-                        }
-                    }
-                    let (ins, outs) = run.unflatten(&flat);
-                    match case.judge(&ins, &outs) {
-                        Judgement::Holds => out.count("cycle-lie:accepted-benign", 1),
-                        Judgement::Wrong(w) => out.viol(Viol::new(
-                            viol_key(case, "exposed-value-not-constrained"),
-                            format!("exposed position {pos} and its copy cycle changed by {fname}: still satisfied although {w}"),
-                            detail(),
-                        )),
-                    }
+                match judge_flat(&f2) {
+                    Judgement::Holds => out.count("cycle-lie:accepted-benign", 1),
+                    Judgement::Wrong(w) => out.viol(Viol::new(
+                        format!("{op}:exposed-value-not-constrained"),
+                        format!("exposed position {pos} and its copy cycle changed by {fname}: still satisfied although {w}"),
+                        detail(),
+                    )),
                 }
             }
         }
     }
-    rep
+}
+
+/// The exposed positions that get the binding checks: all of them, or (for the big circuits in
+/// the quick tier) the first input, the first output and the last output.
+pub fn pick_positions(n_exposed: usize, n_inputs: usize, all: bool) -> Vec<usize> {
+    if all || n_exposed <= 3 {
+        return (0..n_exposed).collect();
+    }
+    let mut v = vec![0, n_inputs.min(n_exposed - 1), n_exposed - 1];
+    v.sort();
+    v.dedup();
+    v
+}
+
+/// Instance binding + exposed-value lies on an accepted honest run (which must hold its prover).
+pub fn binding_from_run<C: FsCase>(case: &C, k: u32, run: &mut FsRun, all_positions: bool, out: &mut CaseOut) {
+    let Some(mut prover) = run.prover.take() else { return };
+    let n_in = run.order.iter().filter(|o| !o.0).count();
+    let positions = pick_positions(run.flat.len(), n_in, all_positions);
+    let key = case.key();
+    binding_checks(
+        &mut prover,
+        &run.flat,
+        &positions,
+        &|f| {
+            let (i, o) = run.unflatten(f);
+            case.judge(&i, &o)
+        },
+        &case.op(),
+        &|| json!({"case": key, "k": k}),
+        out,
+    );
 }
 
 /// 1 deviation, propagate mode, for the assignment indices `idxs`.
